@@ -28,7 +28,7 @@ type cfg struct {
 	events             int
 	dropPm, dupPm      int
 	reorderPm          int
-	wInvoke, wTick, wDeliver, wKill, wRestart, wStop, wTransfer, wPart, wHeal, wSleep int
+	wInvoke, wTick, wDeliver, wKill, wRestart, wStop, wTransfer, wPart, wHeal, wSleep, wPark int
 	crashPoint string // C06: named point to kill at ("" = quiescent instants only)
 	crashHit   int
 	optFsync   bool
@@ -50,6 +50,8 @@ type sim struct {
 	tripped   bool
 	pointDone bool
 	armed     bool
+	park      *parked
+	releases  []func()
 	killed    int
 	acked     int
 	dumps     []string
@@ -59,6 +61,38 @@ type sim struct {
 }
 
 func pick(t *core.Tape, vals ...int) int { return vals[t.Choose(len(vals))] }
+
+// parked: one goroutine of one machine held at a named point while other
+// events run (intra-node interleavings: client calls and messages landing
+// between publish and persist, between apply and the wait for raft, ...)
+type parked struct {
+	machine  int
+	name     string
+	release  func()
+	isParked func() bool
+	since    int
+}
+
+var parkPoints = []string{"raft.beforePersist", "raft.afterPublish", "raft.afterPersist", "raft.beforeAppend", "raft.beforeAdvance",
+	"apply.beforeApplyAll", "apply.afterApplyAll", "apply.beforeTriggerSnapshot", "snap.beforeSaveSnap", "snap.beforeSync", "snap.beforeCompact"}
+
+func (s *sim) releasePark(why string) {
+	if s.park != nil {
+		s.c.Log("release", "m%d %s (%s) wasParked=%v", s.park.machine, s.park.name, why, s.park.isParked())
+		if s.park.isParked() {
+			s.c.Probe("goroutine_was_parked_at_" + s.park.name)
+		}
+		s.park.release()
+		s.park = nil
+		synctest.Wait()
+	}
+}
+
+func (s *sim) releaseAll() {
+	for _, r := range s.releases {
+		r()
+	}
+}
 
 var crashPoints = []string{"", "raft.ready.begin", "raft.beforePersist", "raft.beforePublish", "raft.afterPublish", "raft.afterPersist",
 	"raft.persist.beforeSave", "raft.beforeAppend", "raft.beforeAdvance", "apply.beforeApplyAll", "apply.afterApplyAll",
@@ -96,6 +130,7 @@ func drawCfg(c *core.RunCtx) cfg {
 	g.wPart = pick(t, 0, 0, 2)
 	g.wHeal = pick(t, 5, 10)
 	g.wSleep = pick(t, 5, 20)
+	g.wPark = pick(t, 0, 4, 10)
 	g.optFsync = false
 	if c.Prop == "C06" {
 		g.crashPoint = crashPoints[t.Choose(len(crashPoints))]
@@ -232,10 +267,14 @@ func (s *sim) bubble() (final []lin.Op, mismatch string) {
 	}
 	s.believed = cl.Leader(0)
 	s.armed = true // crash points count from here on (no faults during boot)
-	w := []int{g.wInvoke, g.wTick, g.wDeliver, g.wKill, g.wRestart, g.wStop, g.wTransfer, g.wPart, g.wHeal, g.wSleep}
+	w := []int{g.wInvoke, g.wTick, g.wDeliver, g.wKill, g.wRestart, g.wStop, g.wTransfer, g.wPart, g.wHeal, g.wSleep, g.wPark}
+	defer s.releaseAll()
 	ev := 0
 	for ; ev < g.events && len(c.Viol) == 0; ev++ {
 		cl.Clock = int64(ev)
+		if s.park != nil && ev-s.park.since > 40 {
+			s.releasePark("timeout")
+		}
 		s.event(t.Weighted(w))
 		s.poll()
 		if s.tripped && cl.M[0].Up {
@@ -250,6 +289,7 @@ func (s *sim) bubble() (final []lin.Op, mismatch string) {
 	c.Events = int64(ev)
 	// the armed crash point is disarmed: no faults while settling
 	s.pointDone = true
+	s.releasePark("settle")
 	// ---- settle: no more faults ----
 	c.Log("settle", "")
 	s.blocked = map[[2]int]bool{}
@@ -403,12 +443,26 @@ func (s *sim) ups() []*nodeh.Machine {
 }
 
 func (s *sim) kill(m *nodeh.Machine) {
-	s.cl.Kill(m)
+	wasParked := s.park != nil && s.park.machine == m.Idx
+	if wasParked && s.park.isParked() {
+		// the process dies with that thread stopped exactly there
+		s.c.Probe("killed_with_goroutine_parked")
+		s.c.Log("kill-while-parked", "m%d %s", m.Idx, s.park.name)
+	}
+	s.cl.Kill(m) // takes the directory image
 	s.killed++
+	// whatever the dead process had not answered by now is never answered
 	for _, p := range s.pend {
 		if p != nil && p.call.Machine == m.Idx && !p.call.Done() {
 			p.call.Dead = true
 		}
+	}
+	if wasParked {
+		// the image is taken; the abandoned goroutine may run on (it is dead to
+		// the world) and the point must not catch the next incarnation
+		s.park.release()
+		s.park = nil
+		synctest.Wait()
 	}
 }
 
@@ -501,6 +555,9 @@ func (s *sim) event(kind int) {
 			return
 		}
 		m := ups[t.Choose(len(ups))]
+		if s.park != nil && s.park.machine == m.Idx {
+			s.releasePark("graceful stop")
+		}
 		c.Fault("stop_graceful")
 		c.Log("stop", "m%d", m.Idx)
 		// calls in flight on that process end with whatever it answers
@@ -539,6 +596,22 @@ func (s *sim) event(kind int) {
 			s.blocked = map[[2]int]bool{}
 			c.Log("heal", "")
 		}
+	case 10: // park a goroutine of one machine at a named point / release it
+		if s.park != nil {
+			s.releasePark("event")
+			return
+		}
+		ups := s.ups()
+		if len(ups) == 0 {
+			return
+		}
+		m := ups[t.Choose(len(ups))]
+		name := parkPoints[t.Choose(len(parkPoints))]
+		rel, isP := cl.Arm(name, 0, m.Idx)
+		s.park = &parked{machine: m.Idx, name: name, release: rel, isParked: isP, since: int(cl.Clock)}
+		s.releases = append(s.releases, rel)
+		c.Fault("park")
+		c.Log("park", "m%d %s", m.Idx, name)
 	case 9: // time passes
 		d := time.Duration(1+t.Choose(20)) * 50 * time.Millisecond
 		c.Log("sleep", "%v", d)
